@@ -403,6 +403,7 @@ func (t *Template) blockParametersList(isDeclaring bool, context string) *BlockP
 func (t *Template) parseBlock() Node {
 	const context = "block clause"
 	var pipe Expression
+	line := t.lex.lineNumber() // before parsing the body, which may span several lines
 
 	name := t.expect(itemIdentifier, context, "name")
 	bplist := t.blockParametersList(true, context)
@@ -420,7 +421,7 @@ func (t *Template) parseBlock() Node {
 		contentList, end = t.itemList(nodeEnd)
 	}
 
-	block := t.newBlock(name.pos, t.lex.lineNumber(), name.val, bplist, pipe, list, contentList)
+	block := t.newBlock(name.pos, line, name.val, bplist, pipe, list, contentList)
 	t.passedBlocks[block.Name] = block
 	return block
 }
@@ -434,6 +435,7 @@ func (t *Template) parseYield() Node {
 		bplist  *BlockParameterList
 		content *ListNode
 	)
+	line := t.lex.lineNumber() // before parsing the content, which may span several lines
 
 	// parse block name
 	name = t.nextNonSpace()
@@ -443,7 +445,7 @@ func (t *Template) parseYield() Node {
 			pipe = t.expression(context, "content context")
 		}
 		t.expectRightDelim(context)
-		return t.newYield(name.pos, t.lex.lineNumber(), "", nil, pipe, nil, true)
+		return t.newYield(name.pos, line, "", nil, pipe, nil, true)
 	} else if name.typ != itemIdentifier {
 		t.unexpected(name, context, "block name")
 	}
@@ -473,7 +475,7 @@ func (t *Template) parseYield() Node {
 		}
 	}
 
-	return t.newYield(name.pos, t.lex.lineNumber(), name.val, bplist, pipe, content, false)
+	return t.newYield(name.pos, line, name.val, bplist, pipe, content, false)
 }
 
 func (t *Template) parseInclude() Node {
